@@ -1,6 +1,217 @@
-//! Delta-debugging minimiser: placeholder, filled in below.
+//! Delta-debugging minimiser. Every candidate runs in a child process (the heap of a failing run cannot be
+//! trusted), and is kept only if the same oracle of the same property still fires (or the same crash class).
+
+use std::process::Command;
+
+use crate::program::*;
 use crate::Args;
-pub fn cmd_minimise(_a: &Args) {
-    eprintln!("not implemented yet");
-    std::process::exit(2);
+
+struct Ctx {
+    exe: std::path::PathBuf,
+    tmp: String,
+    prop: String,
+    oracle: String, // oracle id (prefix match on the base id) or "crash"
+    tests: u32,
+    max_tests: u32,
+}
+
+impl Ctx {
+    fn fails(&mut self, p: &Program) -> bool {
+        if self.tests >= self.max_tests {
+            return false;
+        }
+        self.tests += 1;
+        if std::fs::write(&self.tmp, p.to_text()).is_err() {
+            return false;
+        }
+        let out = Command::new(&self.exe).arg("replay").arg(&self.tmp).arg("--prop").arg(&self.prop).output();
+        let Ok(out) = out else { return false };
+        let text = String::from_utf8_lossy(&out.stdout);
+        if self.oracle == "crash" {
+            use std::os::unix::process::ExitStatusExt;
+            return out.status.signal().is_some();
+        }
+        let base = self.oracle.split('.').next().unwrap_or(&self.oracle).to_string();
+        text.lines().any(|l| (l.starts_with("@@VIOLATION") || l.starts_with("RESULT violation")) && l.contains(&format!("oracle={}", base)))
+    }
+}
+
+fn ddmin_ops(ctx: &mut Ctx, prog: &mut Program) {
+    let mut n = 2usize;
+    while prog.ops.len() >= 2 {
+        let len = prog.ops.len();
+        let chunk = (len + n - 1) / n;
+        let mut reduced = false;
+        let mut start = 0;
+        while start < prog.ops.len() {
+            let end = (start + chunk).min(prog.ops.len());
+            let mut cand = prog.clone();
+            cand.ops.drain(start..end);
+            if ctx.fails(&cand) {
+                *prog = cand;
+                reduced = true;
+                n = n.saturating_sub(1).max(2);
+            } else {
+                start = end;
+            }
+        }
+        if !reduced {
+            if chunk == 1 {
+                break;
+            }
+            n = (n * 2).min(prog.ops.len());
+        }
+        if ctx.tests >= ctx.max_tests {
+            break;
+        }
+    }
+}
+
+fn simplify(ctx: &mut Ctx, prog: &mut Program) {
+    // faults
+    let mut i = 0;
+    while i < prog.faults.len() {
+        let mut cand = prog.clone();
+        cand.faults.remove(i);
+        if ctx.fails(&cand) {
+            *prog = cand;
+        } else {
+            i += 1;
+        }
+    }
+    // scripts and stores
+    let vec2 = crate::node::STORE_KINDS.iter().position(|k| k.0 == "vec2").unwrap() as u16;
+    for i in 0..prog.ops.len() {
+        if !prog.ops[i].script.is_empty() {
+            let mut cand = prog.clone();
+            cand.ops[i].script.clear();
+            if ctx.fails(&cand) {
+                *prog = cand;
+            } else {
+                // try dropping single minis
+                let mut k = 0;
+                while k < prog.ops[i].script.len() {
+                    let mut c2 = prog.clone();
+                    c2.ops[i].script.remove(k);
+                    if ctx.fails(&c2) {
+                        *prog = c2;
+                    } else {
+                        k += 1;
+                    }
+                }
+            }
+        }
+        if prog.ops[i].tmpl.is_some() {
+            for which in 0..2 {
+                let len = {
+                    let t = prog.ops[i].tmpl.as_ref().unwrap();
+                    if which == 0 { t.fin.len() } else { t.drop.len() }
+                };
+                if len == 0 {
+                    continue;
+                }
+                let mut cand = prog.clone();
+                {
+                    let t = cand.ops[i].tmpl.as_mut().unwrap();
+                    if which == 0 { t.fin.clear() } else { t.drop.clear() }
+                }
+                if ctx.fails(&cand) {
+                    *prog = cand;
+                    continue;
+                }
+                let mut k = 0;
+                loop {
+                    let cur = {
+                        let t = prog.ops[i].tmpl.as_ref().unwrap();
+                        if which == 0 { t.fin.len() } else { t.drop.len() }
+                    };
+                    if k >= cur {
+                        break;
+                    }
+                    let mut c2 = prog.clone();
+                    {
+                        let t = c2.ops[i].tmpl.as_mut().unwrap();
+                        if which == 0 { t.fin.remove(k); } else { t.drop.remove(k); }
+                    }
+                    if ctx.fails(&c2) {
+                        *prog = c2;
+                    } else {
+                        k += 1;
+                    }
+                }
+            }
+            if prog.ops[i].tmpl.as_ref().unwrap().store != vec2 {
+                let mut cand = prog.clone();
+                cand.ops[i].tmpl.as_mut().unwrap().store = vec2;
+                if ctx.fails(&cand) {
+                    *prog = cand;
+                }
+            }
+        }
+    }
+    // knobs
+    if prog.knobs.auto {
+        let mut cand = prog.clone();
+        cand.knobs.auto = false;
+        if ctx.fails(&cand) {
+            *prog = cand;
+        }
+    }
+    if prog.knobs.buffered != 0 {
+        let mut cand = prog.clone();
+        cand.knobs.buffered = 0;
+        if ctx.fails(&cand) {
+            *prog = cand;
+        }
+    }
+}
+
+pub fn minimise(exe: std::path::PathBuf, prog: &Program, prop: &str, oracle: &str, tmp: &str, max_tests: u32) -> (Program, u32, bool) {
+    let mut ctx = Ctx { exe, tmp: tmp.to_string(), prop: prop.to_string(), oracle: oracle.to_string(), tests: 0, max_tests };
+    let mut p = prog.clone();
+    p.threads.clear();
+    if !prog.threads.is_empty() {
+        return (prog.clone(), 0, true); // multi-thread programs are reported as found
+    }
+    if !ctx.fails(&p) {
+        return (p, ctx.tests, false);
+    }
+    for _ in 0..3 {
+        let before = (p.ops.len(), p.faults.len());
+        ddmin_ops(&mut ctx, &mut p);
+        simplify(&mut ctx, &mut p);
+        if (p.ops.len(), p.faults.len()) == before || ctx.tests >= ctx.max_tests {
+            break;
+        }
+    }
+    let _ = std::fs::remove_file(tmp);
+    (p, ctx.tests, true)
+}
+
+pub fn cmd_minimise(a: &Args) {
+    let file = a.pos.get(1).cloned().unwrap_or_else(|| {
+        eprintln!("minimise needs a file");
+        std::process::exit(2)
+    });
+    let text = std::fs::read_to_string(&file).unwrap_or_else(|e| {
+        eprintln!("HARNESS-ERROR: cannot read {}: {}", file, e);
+        std::process::exit(2)
+    });
+    let prog = Program::parse(&text).unwrap_or_else(|e| {
+        eprintln!("HARNESS-ERROR: {}", e);
+        std::process::exit(2)
+    });
+    let prop = a.get("prop").unwrap_or("C01").to_string();
+    let oracle = a.get("oracle").unwrap_or("crash").to_string();
+    let out = a.get("out").map(|s| s.to_string()).unwrap_or_else(|| format!("{}.min", file));
+    let tmp = format!("{}.cand.{}", out, std::process::id());
+    let exe = std::env::current_exe().expect("current exe");
+    let (mut p, tests, reproduced) = minimise(exe, &prog, &prop, &oracle, &tmp, a.num("max-tests", 800) as u32);
+    if !reproduced {
+        println!("MINIMISE not-reproduced tests={}", tests);
+        std::process::exit(4);
+    }
+    p.expect = Some((prop.clone(), oracle.clone()));
+    std::fs::write(&out, p.to_text()).expect("write minimised program");
+    println!("MINIMISE ok ops {} -> {} faults {} -> {} tests={} out={}", prog.ops.len(), p.ops.len(), prog.faults.len(), p.faults.len(), tests, out);
 }
